@@ -133,6 +133,12 @@ func (l *Listener) Wait(ctx context.Context) error {
 	// we wait either until the channel got closed or the context is done
 	select {
 	case <-l.channel:
+		// the channel is shared by all listeners of the value: a Notify that came after this listener was
+		// de-registered (by another goroutine) must not be reported as success.
+		if l.deregistered.Load() {
+			return ErrListenerDeregistered
+		}
+
 		return nil
 	case <-l.deregisteredChan:
 		return ErrListenerDeregistered
